@@ -100,11 +100,16 @@ class Recorder(object):
         return out
 
 
-def _mk_block(spec):
+def _mk_block(spec, templates=None):
     from pymodbus.datastore import ModbusSequentialDataBlock, ModbusSparseDataBlock
     cells = refdev.block_cells(spec)
     if spec['kind'] == 'seq':
-        return ModbusSequentialDataBlock(spec['start'], [cells[spec['start'] + i] for i in range(spec['size'])])
+        vals = [cells[spec['start'] + i] for i in range(spec['size'])]
+        if templates is not None:
+            # the application builds equal blocks from ONE template list object (a common way to set up several
+            # units); each block must own its cells all the same
+            vals = templates.setdefault((spec['start'], tuple(vals), tuple(type(v) for v in vals[:1])), vals)
+        return ModbusSequentialDataBlock(spec['start'], vals)
     return ModbusSparseDataBlock(dict(sorted(cells.items())))
 
 
@@ -152,6 +157,7 @@ def make_context(scn, rec):
     order = [str(u) for u in scn.get('unit_order') or []]
     if sorted(order) != sorted(scn['units']):
         order = sorted(scn['units'], key=lambda s: int(s))
+    templates = {}
     for ukey in order:
         layout = scn['units'][ukey]
         share = layout.get('share') or {}
@@ -159,7 +165,7 @@ def make_context(scn, rec):
         defaults = [t for t in ('c', 'd', 'h', 'i') if layout['tables'][t]['kind'] == 'default']
         for t in ('c', 'd', 'h', 'i'):
             if share.get(t, t) == t and t not in defaults:
-                blocks[t] = _mk_block(layout['tables'][t])
+                blocks[t] = _mk_block(layout['tables'][t], templates)
         for t in ('c', 'd', 'h', 'i'):
             if t not in defaults:
                 blocks.setdefault(t, blocks[share.get(t, t)])
